@@ -116,6 +116,9 @@ CONSTRUCTS = [
     "{n} = " + "(" * 300 + "1" + ")" * 300 + "\n",
     "{n} = " + "[" * 120 + "]" * 120 + "\n",
     "@dataclass(frozen=True)\nclass {N}:\n    a: int = field(default=1)\n    b: ClassVar[int] = 2\n    c: InitVar[str] = ''\n",
+    # a type field for a name that is never assigned (kind-less hidden attribute, first in the contents) ahead of other members
+    "class {N}:\n    \'\'\'doc\n\n    @type dyn{n}: C{{int}}\n    \'\'\'\n    def first(self): pass\n    class Inner:\n        def deep(self): pass\n    x = 1\n",
+    "class {N}:\n    \'\'\'doc\n\n    :type dyn{n}: int\n    :ivar other: x\n    \'\'\'\n    def first(self): pass\n    @property\n    def p(self): return 1\n",
     # string annotations / type comments that ast.parse refuses with something other than SyntaxError (1297c95)
     "def {n}(a: \"\\ud800\", b: '\\x00' = 1) -> '\\udfff': pass\n",
     "{n}: '" + "-" * 10000 + "1' = 1\n",
@@ -270,9 +273,25 @@ def encoded_module(rng: random.Random) -> bytes:
     return head + body
 
 
+Q3 = "'" * 3
+
+
+def good_source(docformat: str) -> str:
+    """the planted well-formed module: `ok`, `Fine`, `Fine.m` — and, ahead of them, a type field for a name that is never
+    assigned (set dynamically), in the module docstring and in the class docstring: pydoctor keeps such a name as a
+    kind-less hidden attribute that is the FIRST entry of the contents (seeded C01-r5-2: an inventory writer that stops at
+    the first hidden object loses every later sibling)"""
+    field = {"epytext": "@type dyn: C{int}", "plaintext": "dyn is set dynamically"}.get(docformat, ":type dyn: int")
+    return ("%sgood\n\n%s\n%s\nglobals().update(dyn=3)\ndef ok():\n    %sfine%s\nclass Fine:\n    %sFine.\n\n    %s\n    %s\n"
+            "    def m(self): pass\n" % (Q3, field, Q3, Q3, Q3, Q3, field.replace("dyn", "dynattr"), Q3))
+
+
 def catalogue_module(rng: random.Random, depth: int = 0) -> Tuple[str, int]:
     out = []
     used = 0
+    if depth == 0 and rng.random() < 0.25:
+        # a module docstring that types names the module never assigns, ahead of everything else
+        out.append(rng.choice(["%sdoc\n\n@type dynmod: C{int}\n@type dynmod2: L{str}\n%s\n", "%sdoc\n\n:type dynmod: int\n%s\n"]) % (Q3, Q3))
     for _ in range(rng.randint(1, 6)):
         c = rng.choice(CONSTRUCTS)
         used += 1
@@ -345,7 +364,6 @@ def make_tree(rng: random.Random) -> Dict[str, Any]:
         for i in range(rng.randint(1, 2)):
             f = rng.choice(seeds)
             files["pkg/m%d.py" % i] = mutate(f.read_text(encoding="utf-8", errors="replace"), rng)
-        files["pkg/good.py"] = "def ok():\n    '''fine'''\nclass Fine:\n    def m(self): pass\n"
     if kind in ("hostile", "mixed"):
         files["pkg/h.py"] = hostile_module(rng)
     if kind == "deep":
@@ -355,7 +373,8 @@ def make_tree(rng: random.Random) -> Dict[str, Any]:
                 files["pkg/d%d.py" % i] = deep_source(rng)
         else:
             files.update(import_chain(rng, "pkg"))
-        files["pkg/good.py"] = "def ok():\n    '''fine'''\nclass Fine:\n    def m(self): pass\n"
+    docformat = rng.choice(DOCFORMATS)
+    files["pkg/good.py"] = good_source(docformat)      # in every tree
     if rng.random() < 0.2:
         files["pkg/sub/__init__.py"] = "from .. import *\nfrom ..good import ok\n__all__ = ['ok']\n"
         files["pkg/sub/deep.py"] = catalogue_module(rng)[0]
@@ -440,7 +459,7 @@ def make_tree(rng: random.Random) -> Dict[str, Any]:
     # now and then only some objects are written (--html-subject): their pages, their members' pages and the
     # inventory are still due
     subject = (root + "/good.py") in files and rng.random() < 0.25
-    return {"files": files, "kind": kind, "docformat": rng.choice(DOCFORMATS), "constructs": nconstructs,
+    return {"files": files, "kind": kind, "docformat": docformat, "constructs": nconstructs,
             "werror": rng.random() < 0.3, "prepend": prepend, "root": root, "extra_roots": extra_roots, "subject": subject}
 
 
@@ -692,6 +711,8 @@ def run_tree(tree: Dict[str, Any]) -> Dict[str, Any]:
                 res["subject_inv"] = all((pre + rt + ".good" + x + " ") in body for x in ("", ".Fine", ".Fine.m"))   # `ok` may have been moved by a re-export
             except Exception as e:
                 res["subject_inv"] = "unreadable:" + type(e).__name__
+        if not subject_on and str(res["outcome"]).startswith("exit"):
+            res.update(output_content(tree, bad, out, pre))
         res["good_page"] = (out / (pre + rt + ".good.html")).exists() if rt + "/good.py" in tree["files"] and rt + "/good.py" not in bad else None
         res["pkg_ok"] = rt + "/__init__.py" not in bad
         res["tail"] = text[-400:]
@@ -699,6 +720,85 @@ def run_tree(tree: Dict[str, Any]) -> Dict[str, Any]:
         res["outcome"] = "harness:%s:%s" % (type(e).__name__, e)
     finally:
         shutil.rmtree(tmp, ignore_errors=True)
+    return res
+
+
+def expected_modules(tree: Dict[str, Any], bad: List[str]) -> List[str]:
+    """dotted names (below the roots, without --prepend-package) of the modules of the tree that parse and that pydoctor
+    documents under a predictable name: every path component an identifier, every directory above it a package"""
+    import re
+    files = tree["files"]
+    out = []
+    # a package that re-exports a module under ANOTHER name (`from .impl import tools as kit; __all__ = ['kit']`) renames it
+    renamed = set()
+    for rel, src in files.items():
+        if rel.endswith("__init__.py") and "__all__" in src:
+            for orig, alias in re.findall(r"import\s+(\w+)\s+as\s+(\w+)", src):
+                if orig != alias and re.search(r"__all__.*['\"]%s['\"]" % re.escape(alias), src):
+                    renamed.add(orig)
+    for rel, src in files.items():
+        if not rel.endswith(".py") or rel in bad or (src.startswith("#") and not src.startswith("#HEX:")):
+            continue
+        if rel[:-3].split("/")[-1] in renamed or (rel.endswith("/__init__.py") and rel.split("/")[-2] in renamed):
+            continue
+        parts = rel[:-3].split("/")
+        dirs = parts[:-1]
+        if parts[-1] == "__init__":
+            parts = dirs
+        if not parts or not all(x.isidentifier() and x.isascii() for x in parts):
+            continue
+        ok = True
+        for i in range(1, len(dirs) + 1):
+            init = "/".join(dirs[:i]) + "/__init__.py"
+            if init not in files or files[init].startswith("#SYMLINK:"):
+                ok = False
+        if ok:
+            out.append(".".join(parts))
+    return out
+
+
+def output_content(tree: Dict[str, Any], bad: List[str], out: Path, pre: str) -> Dict[str, Any]:
+    """C01 promises that the inventory and the search index are WRITTEN: at the level this property can speak about (C17
+    owns the format), every module of the tree that parses and the members of the planted good.py have an entry in
+    objects.inv and a document in searchindex.json.  A re-export may move an object: a module / member is looked up by its
+    own name first, then by its last component among the entries of its kind."""
+    import re
+    import zlib
+    res: Dict[str, Any] = {}
+    try:
+        raw = (out / "objects.inv").read_bytes()
+        inv = {}
+        for line in zlib.decompress(raw.split(b"\n", 4)[4]).decode("utf-8", "replace").splitlines():
+            m = re.match(r"(.+?) (py:\w+) -?\d+ (\S+) (.*)$", line)
+            if m:
+                inv[m.group(1)] = m.group(2)
+        search = set(re.findall(r'"name/([^"]*)"', (out / "searchindex.json").read_text(encoding="utf-8", errors="replace")))
+    except Exception as e:
+        return {"content_unreadable": type(e).__name__}
+
+    def has_inv(full: str, kinds: Tuple[str, ...]) -> bool:
+        last = "." + full.rsplit(".", 1)[-1]
+        return inv.get(full) in kinds or any(k.endswith(last) and v in kinds for k, v in inv.items())
+
+    def has_doc(full: str) -> bool:
+        last = "." + full.rsplit(".", 1)[-1]
+        return full in search or any(k.endswith(last) for k in search)
+    inv_missing, doc_missing = [], []
+    for name in expected_modules(tree, bad):
+        full = pre + name
+        if not has_inv(full, ("py:module",)):
+            inv_missing.append("module:" + full)
+        if not has_doc(full):
+            doc_missing.append("module:" + full)
+    rt = tree.get("root", "pkg")
+    if rt + "/good.py" in tree["files"] and rt + "/good.py" not in bad and rt + "/__init__.py" not in bad:
+        for member, kinds in ((".good.ok", ("py:function",)), (".good.Fine", ("py:class",)), (".good.Fine.m", ("py:method", "py:function"))):
+            full = pre + rt + member
+            if not has_inv(full, kinds):
+                inv_missing.append("member:" + full)
+            if not has_doc(full):
+                doc_missing.append("member:" + full)
+    res["inv_missing"], res["doc_missing"] = inv_missing, doc_missing
     return res
 
 
@@ -829,6 +929,14 @@ def judge(ctx: Ctx, tree: Dict[str, Any], r: Dict[str, Any]) -> None:
         ctx.fail("subject-missing-from-inventory", inp, f"--html-subject {inp['root']}.good: objects.inv does not list the subject and its members ({r.get('subject_inv')})")
     if "subject" in r:
         ctx.count("runs:--html-subject")
+    if r.get("content_unreadable"):
+        ctx.fail("inventory-or-search-index-unreadable", inp, f"objects.inv / searchindex.json cannot be read back ({r['content_unreadable']})")
+    for what in r.get("inv_missing") or []:
+        ctx.fail("inventory-entry-missing:" + what.split(":")[0], inp, f"objects.inv has no entry for {what} after a run that returned {code}")
+    for what in r.get("doc_missing") or []:
+        ctx.fail("search-document-missing:" + what.split(":")[0], inp, f"searchindex.json has no document for {what} after a run that returned {code}")
+    if "inv_missing" in r:
+        ctx.count("runs:inventory-and-search-content-checked")
     if r.get("good_page") is False and r.get("pkg_ok"):
         ctx.fail("good-file-not-documented", inp, "pkg/good.py parses but pkg.good.html was not written")
 
@@ -836,7 +944,7 @@ def judge(ctx: Ctx, tree: Dict[str, Any], r: Dict[str, Any]) -> None:
 def corpus_trees() -> List[Dict[str, Any]]:
     """fixed trees that run first on every run: one per class of past failure (defects repaired, seeded changes)"""
     BROKEN = "def broken(:\n    pass\n"
-    GOOD = "def ok():\n    'fine'\nclass Fine:\n    def m(self): pass\n"
+    GOOD = good_source("epytext")
     trees = []
 
     def tree(files, **kw):
